@@ -226,7 +226,7 @@ Definition toy_si (mode a c : N) : N := 11 * a + 13 * c + mode.
 
 (* source, AST, parser.Result, parser.Result without AST (parser.ResultWithoutAST), proto, proto that already
    carries source info *)
-Inductive form := FSource | FAst | FRes | FResNoAst | FProto | FProtoSI.
+Inductive form := FSource | FAst | FRes | FResNoAst | FProto | FProtoSI | FResNoAstSI.
 
 Record obs := mkfobs { ob_changed : bool;      (* did the supplied object change *)
                        ob_has_si : bool;       (* does the compiled file carry source info *)
@@ -249,6 +249,10 @@ Definition supply (h : heap N N N) (fm : form) (s mode : N) : input N * list id 
     (* the source info an all-source compilation produces is attached up front; the linked content it
        was generated from is not known here, the harness attaches the reference one: model it as a marker *)
     let (ip, h1) := alloc N N N h (OProto N N N (toy_to_core a) (Some 0)) in (IProto N ip, [ip], h1)
+  | FResNoAstSI =>
+    (* parser.ResultWithoutAST around a descriptor proto that already carries source info *)
+    let (ip, h1) := alloc N N N h (OProto N N N (toy_to_core a) (Some 0)) in
+    let (ir, h2) := alloc N N N h1 (ORes N N N None ip) in (IRes N ir, [ip; ir], h2)
   end.
 
 Fixpoint supply_all (h : heap N N N) (fms : list (form * list nat)) (k mode : N)
@@ -297,9 +301,10 @@ Fixpoint forms_cmp (fms : list (form * list nat)) (mode : N) (res ref : list (N 
       Bool.eqb (ob_has_si ob) has
       && Bool.eqb (ob_core_same ob) (c =? c0)
       && (* source info is predicted equal to the reference whenever it was generated from the AST; a
-            pre-attached one is the reference's by construction of the harness *)
+            pre-attached one is the reference's by construction of the harness, so whenever it is kept it is
+            observed equal (the plugin reports equal when one side has none) *)
          (match fm, s, s0 with
-          | FProtoSI, _, _ => true
+          | FProtoSI, _, _ | FResNoAstSI, _, _ => ob_si_same ob
           | _, Some u, Some v => Bool.eqb (ob_si_same ob) (u =? v)
           | _, _, _ => true
           end)
